@@ -330,7 +330,7 @@ def run_one(ctl: explorer.Ctl, cfg: Dict[str, Any]) -> Dict[str, Any]:
     viol: List[dict] = []
     if status != "ok":
         obs["outcome"] = status
-        obs["violations"] = [{"sig": {"class": "did-not-finish", "status": status}, "msg": f"steps={steps}: {status} {val!r}"}]
+        obs["violations"] = [{"sig": {"class": "did-not-finish", "status": status}, "msg": f"steps={steps}: {status} {core.clean_repr(val)}"}]
         return obs
     px = info["px"]
     posts = [r for r in px.requests if r.method == "POST"]
@@ -490,7 +490,7 @@ def run_pipelined(ctl: explorer.Ctl, cfg: Dict[str, Any]) -> Dict[str, Any]:
     errors = loop.collect_errors()
     loop.abandon()
     if status != "ok":
-        return {"outcome": status, "violations": [{"sig": {"class": "did-not-finish", "part": "pipelined"}, "msg": f"steps={steps}: {status} {val!r}"}]}
+        return {"outcome": status, "violations": [{"sig": {"class": "did-not-finish", "part": "pipelined"}, "msg": f"steps={steps}: {status} {core.clean_repr(val)}"}]}
     # attribute delivered messages to requests by id (notifications in a body are attributed to the request they follow)
     dumped = [dump_msg(m) for m in got_all]
     got_per_step: List[List[Any]] = [[] for _ in steps]
